@@ -33,6 +33,10 @@ package plugins
 //@   preserves *conf, *conf.Server4, *conf.Server6, elems(conf.Server4.Plugins), elems(conf.Server6.Plugins), RegisteredPlugins, mapc(RegisteredPlugins)
 //@   ensures[C13:one-handler-per-setup-call] ret2 == nil ==> (len(ret0) == slog4_n - old(slog4_n) && len(ret1) == slog6_n - old(slog6_n))
 //@   ensures[C13:error-means-no-handlers] ret2 != nil ==> (ret0 == nil && ret1 == nil)
+// an unknown plugin name aborts start-up: on success every listed name is registered
+// (stated over the configuration and the registry as they were on entry; neither changes)
+//@   ensures[C13:every-listed-plugin-is-registered] (ret2 == nil && old(conf.Server6 != nil)) ==> (forall i in 0..old(len(conf.Server6.Plugins)): old(has(RegisteredPlugins, conf.Server6.Plugins[i].Name)))
+//@   ensures[C13:every-listed-plugin-is-registered] (ret2 == nil && old(conf.Server4 != nil)) ==> (forall i in 0..old(len(conf.Server4.Plugins)): old(has(RegisteredPlugins, conf.Server4.Plugins[i].Name)))
 //@   assert[C13:setup-of-the-listed-plugin] before "plugin.Setup6(pluginConf.Args...)": has(RegisteredPlugins, pluginConf.Name) && plugin == RegisteredPlugins[pluginConf.Name]
 //@   assert[C13:setup-of-the-listed-plugin] before "plugin.Setup4(pluginConf.Args...)": has(RegisteredPlugins, pluginConf$2.Name) && plugin$2 == RegisteredPlugins[pluginConf$2.Name]
 //@   assert[C13:appended-handler-is-the-setup-result] before "append(handlers6, h6)": h6 != nil && h6 == slog6_ret[slog6_n - 1]
@@ -40,7 +44,10 @@ package plugins
 //@   loop 1: invariant conf != nil && conf.Server6 != nil && handlers4 != nil && handlers6 != nil && len(handlers4) == 0 && slog4_n == old(slog4_n)
 //@   loop 1: invariant forall k string: has(RegisteredPlugins, k) ==> RegisteredPlugins[k] != nil
 //@   loop 1: invariant len(handlers6) == slog6_n - old(slog6_n) && len(handlers6) <= rangeindex + 1
+//@   loop 1: invariant[C13] len(conf.Server6.Plugins) == old(len(conf.Server6.Plugins)) && (forall i in 0..loopindex + 1: old(has(RegisteredPlugins, conf.Server6.Plugins[i].Name)))
 //@   loop 2: invariant conf != nil && conf.Server4 != nil && handlers4 != nil && handlers6 != nil
 //@   loop 2: invariant forall k string: has(RegisteredPlugins, k) ==> RegisteredPlugins[k] != nil
 //@   loop 2: invariant len(handlers4) == slog4_n - old(slog4_n) && len(handlers4) <= rangeindex$2 + 1
 //@   loop 2: invariant len(handlers6) == slog6_n - old(slog6_n)
+//@   loop 2: invariant[C13] old(conf.Server6 != nil) ==> (forall i in 0..old(len(conf.Server6.Plugins)): old(has(RegisteredPlugins, conf.Server6.Plugins[i].Name)))
+//@   loop 2: invariant[C13] len(conf.Server4.Plugins) == old(len(conf.Server4.Plugins)) && (forall i in 0..loopindex + 1: old(has(RegisteredPlugins, conf.Server4.Plugins[i].Name)))
